@@ -663,7 +663,12 @@ impl CompactionWorker {
                         // Prioritize compacting an immutable memtable if there is one
                         let memtable_compaction_start = Instant::now();
                         let mut db_mutex_guard = db_state.guarded_db_fields.lock();
-                        if db_mutex_guard.maybe_immutable_memtable.is_some() {
+                        // No more manifest writes once the database is in its error state. A
+                        // failed manifest write may have left a partial record at the end of
+                        // the manifest and nothing may be appended behind it.
+                        if db_mutex_guard.maybe_immutable_memtable.is_some()
+                            && db_mutex_guard.maybe_bad_database_state.is_none()
+                        {
                             CompactionWorker::compact_memtable(
                                 db_state,
                                 &mut db_mutex_guard,
@@ -824,6 +829,11 @@ impl CompactionWorker {
         };
         db_fields_guard.compaction_stats[compaction_state.compaction_manifest().level() + 1] +=
             compaction_stats;
+
+        if compaction_error.is_none() {
+            // See the note on manifest writes in the error state above
+            compaction_error = db_fields_guard.maybe_bad_database_state.clone();
+        }
 
         if compaction_error.is_none() {
             let install_result = CompactionWorker::install_compaction_results(
